@@ -132,6 +132,22 @@ func specK(ops []string) []string {
 			} else {
 				res = "v" + strconv.FormatInt(s[len(s)-1], 10)
 			}
+		case "ts": // the elements in decimal, comma separated
+			var b strings.Builder
+			for i, v := range s {
+				if i > 0 {
+					b.WriteByte(',')
+				}
+				b.WriteString(fmtDec(v))
+			}
+			res = "s" + val{s: b.String()}.str('s')
+		case "es":
+			k, _ := strconv.Atoi(f[1])
+			if k >= len(s) {
+				res = "p" // ToString of a nil entity
+			} else {
+				res = "s" + val{s: fmtDec(s[k])}.str('s')
+			}
 		}
 		outs = append(outs, res)
 	}
